@@ -4,9 +4,6 @@ invocation, violation/known-finding protocol, evidence writing.
 Run with /venv/bin/python; the real code is imported from /repo.
 """
 from __future__ import annotations
-import sys as _sys
-if hasattr(_sys, 'set_int_max_str_digits'): _sys.set_int_max_str_digits(0)   # results with million-bit significands are printed, not refused
-
 import json, os, re, subprocess, sys, time, random, hashlib
 from pathlib import Path
 
@@ -229,7 +226,7 @@ def finish(rep: Report, proof: dict, extra_cov: dict | None = None, level: str =
         'wall_s': round(time.time() - rep.t0, 2), 'violations': len(unlisted) + (1 if (rep.broken and not unlisted) else 0),
     }
     # evidence describes /repo itself: a run against another tree (FPY_REPO, used to try seeded changes) writes elsewhere
-    evdir = VERIF / 'evidence' if not os.environ.get('FPY_REPO') else Path('/var/tmp/fpyverif_evidence_other_tree')
+    evdir = VERIF / 'evidence' if not (os.environ.get('FPY_REPO') or os.environ.get('FPY_EVIDENCE_ELSEWHERE')) else Path('/var/tmp/fpyverif_evidence_other_tree')
     evdir.mkdir(exist_ok=True)
     (evdir / f'{rep.prop}.json').write_text(json.dumps(ev, indent=1, default=str))
     for l in lines: print(l)
